@@ -180,25 +180,29 @@ class PieceNode:
         bool
             success state
         """
-        if not paths:
-            if sha1(data).digest() != self.piece:  # nosec
-                return False
-            for full, loc in chosen:
-                self.matches.setdefault(full, set()).add(loc)
-            return True
-        pathnode = paths[0]
-        if pathnode.pad:
-            partial = pathnode.get_part(None)
-            return self._find_matches(filemap, paths[1:], data + partial,
-                                      chosen)
+        # depth first over the candidates of each file, with an explicit
+        # stack: a piece may span any number of (small) files
         found = False
-        for loc, size in filemap.get(pathnode.filename, []):
-            if size != len(pathnode):
+        stack = [(0, data, chosen)]
+        while stack:
+            index, data, chosen = stack.pop()
+            if index == len(paths):
+                if sha1(data).digest() == self.piece:  # nosec
+                    for full, loc in chosen:
+                        self.matches.setdefault(full, set()).add(loc)
+                    found = True
                 continue
-            partial = pathnode.get_part(loc)
-            picked = chosen + ((pathnode.full, loc), )
-            if self._find_matches(filemap, paths[1:], data + partial, picked):
-                found = True
+            pathnode = paths[index]
+            if pathnode.pad:
+                partial = pathnode.get_part(None)
+                stack.append((index + 1, data + partial, chosen))
+                continue
+            for loc, size in filemap.get(pathnode.filename, []):
+                if size != len(pathnode):
+                    continue
+                partial = pathnode.get_part(loc)
+                picked = chosen + ((pathnode.full, loc), )
+                stack.append((index + 1, data + partial, picked))
         return found
 
     def find_matches(self, filemap: dict, dest: str) -> bool:
